@@ -25,6 +25,16 @@ CLAIMED = {
    "Families of invalid transactions (one invalid operation inserted at every position of a valid multi-column transaction: reference without counting on hash and btree columns, tree operations on non-tree columns and vice versa, dereference of a missing or append-only tree, reference of a tree without counting, unrepresentable node with 256 children, commit in the background-error state) are submitted at every state of a surrounding history (accepted commits, all stage interleavings, reopen). Oracle: the call returns an error; the in-memory digest (commit overlay contents, queue, claimed slots/free lists, queued-dereference counters, log overlays) and every file byte are identical before and after the call; all later reads in all columns agree with the model.",
    "Rejected commits may consume a commit id (not observable). Hash-map order pinned and varied over two seeds. Bounds per scenario in the evidence.",
    "DESIGN.md §3 E1, §4 C08"),
+ "C10": ("seqmc", "model_checking",
+   "explicit-state breadth-first search over the real Db, tree model with shared nodes and reference counts, full tree walks through the reader API after every event",
+   "Histories of InsertTree / ReferenceTree / DereferenceTree over 3 root keys with distinct live roots, shapes incl. depth-3 chains, existing-address children (same node twice, under a new child), multipart node data, fan-out 255/256 (root and inner), column variants plain / no direct access / append-only / ref-counted roots, all stage interleavings (n<=2..3) and drained histories (n<=4..5), reopen. Oracle: exact read-back of every live tree via TreeReader and the direct API; unrepresentable insertions rejected; when all commits are logged dead roots unreadable and get_num_column_value_entries = roots + distinct nodes of the model.",
+   "Bounds per scenario in the evidence. Slot-level reclamation (free lists) is checked through the entry count here and by the file parser of C14 (when built).",
+   "DESIGN.md §3 E1, §4 C10"),
+ "C11": ("seqmc", "model_checking",
+   "explicit-state breadth-first search over the real Db with reader lock/unlock as history events; snapshot oracle for the locked tree, commit-order model for all columns",
+   "From a state with a live tree K1: lock(K1)/unlock(K1), commits combining DereferenceTree(K1) with writes to hash and btree columns, later transactions writing the same keys, InsertTree(K2) reusing a node of K1, all stage interleavings, reopen. Oracle: the locked tree equals its snapshot at every state; every column agrees with the model applying transactions in commit-return order at every state, after drain and after reopen; after unlock the removal completes.",
+   "Sequential (single-thread) part only: lock/unlock are events. The threaded variant (reader/writer/pruner/pipeline threads under loom) is not built yet. At most 3 process_commits calls per locked period (each re-queues the postponed dereference under a fresh id).",
+   "DESIGN.md §3 E1, §4 C11"),
 }
 
 NOT_YET = {}
